@@ -272,7 +272,11 @@ func retryAsLoop(c *core.Ctx, info *types.Info, body *ast.BlockStmt, depth types
 		return true
 	})
 	if init, ok := fs.Init.(*ast.AssignStmt); ok && len(init.Lhs) == 1 && len(init.Rhs) == 1 && identObj(info, init.Rhs[0]) == depth {
-		cands[identObj(info, init.Lhs[0])] = true
+		// the loop's own variable, unless it is a mere second name of the depth that the loop never
+		// tests (then the depth itself is the counter, if it is tested)
+		if iv := identObj(info, init.Lhs[0]); cands[iv] || len(cands) == 0 {
+			cands[iv] = true
+		}
 	}
 	delete(cands, nil)
 	if len(cands) != 1 {
